@@ -3,7 +3,7 @@ from corr.common import digest
 from sim.sock import server_frame
 
 CBS = ["on_open", "on_reconnect", "on_message", "on_data", "on_error", "on_close", "on_ping", "on_pong"]
-MODE_LETTER = {None: "A", "ret": "R", "raise": "X", "close": "C", "kbd": "K"}
+MODE_LETTER = {None: "A", "ret": "R", "raise": "X", "raise-closed": "X", "close": "C", "kbd": "K"}   # the model has one "raises an Exception" mode
 
 
 def close_body_legal(body, skip):
@@ -40,6 +40,8 @@ def model_line(sc):
                     evs.append("BP")      # the app model takes validated frames; an illegal close frame is its protocol-error event
                 elif e[0] == "F":
                     evs.append(f"F{e[2]}.{e[1]}:{e[3] or '-'}")
+                elif e[0] == "P":
+                    pass                  # the beginning of a frame that never completes: nothing for the (frame-level) app model
                 else:
                     evs.append(e[0])
             atts.append("E" + ",".join(evs))
@@ -70,6 +72,8 @@ def sim_scenario(sc):
             t += 1.0
             if e[0] == "F":
                 evs.append([t, "D", server_frame(e[1], bytes.fromhex(e[3]), fin=e[2]).hex()])
+            elif e[0] == "P":
+                evs.append([t, "D", e[1]])          # raw bytes: an incomplete frame
             elif e[0] == "BP":
                 evs.append([t, "D", server_frame(3, b"bad").hex()])
             elif e[0] == "BY":
